@@ -4,6 +4,7 @@ from __future__ import annotations
 import copy
 import json
 import re
+from typing import Dict, List, Optional
 
 from hypothesis import strategies as st
 
@@ -26,7 +27,9 @@ RULE = ("Hypothesis draws a type program biased to naming features: classes / Ne
         "against 2020-12 for 3.1 and Draft 4 + nullable mapping for 3.0); every $ref, after un-applying the ref factory, names a key of "
         "$defs / definitions (or of definitions_schema(...) for OpenAPI / custom factories); with all_refs=True every named type reachable "
         "from the root is a definition; with all_refs=False every definition is referenced >= 2 times or lies on a reference cycle; "
-        "definitions_schema returns exactly the inline definitions; a name clash raises ValueError instead of producing a schema.  "
+        "definitions_schema returns exactly the inline definitions - for the root alone and for 2-4 entries (root, classes, containers of "
+        "them, 45% paired with a dynamic conversion between two classes of the program): union of the entries' inline $defs under "
+        "all_refs=True, closed under $ref, independent of entry order; a name clash raises ValueError instead of producing a schema.  "
         "Non-trivial: >= 2 named types and >= 1 shared or recursive.  Distinct = hash(program shape, options).")
 ASSUMPTIONS = ["which multiply-nested named types are extracted under all_refs=False depends on traversal order: only the order-independent clauses above are asserted",
                "known findings C06-recursive-aggregate-field and C06-nested-flatten-schema apply here too (listed under C17 ids)"]
@@ -103,7 +106,26 @@ def strategy_(draw, tier):
         "additional_properties": chance(draw, 0.2),
         "aliaser": pick(draw, ["id", "id", "camel"]),
     }
-    return {"prog": prog, "opts": opts, "clash": clash}
+    case = {"prog": prog, "opts": opts, "clash": clash}
+    # entries of a multi-entry definitions_schema call: the root, named classes of the program and containers of
+    # them, each possibly paired with a dynamic conversion between two classes of the program
+    cls = [i for i, cd in enumerate(prog["classes"]) if cd is not None]
+    dcs = [i for i in cls if prog["classes"][i]["flavor"] == "dataclass"]
+    if cls and chance(draw, 0.7):
+        entries = []
+        for _ in range(draw(st.integers(2, 4))):
+            what = pick(draw, ["root", "cls", "list", "opt", "map"])
+            i = pick(draw, cls)
+            conv = None
+            if dcs and len(cls) >= 2 and chance(draw, 0.45):
+                a = pick(draw, dcs)
+                b_ = pick(draw, [j for j in cls if j != a])
+                conv = [a, b_]
+                if chance(draw, 0.7):
+                    i = a
+            entries.append({"what": what, "i": i, "conv": conv})
+        case["defs_entries"] = entries
+    return case
 
 
 def strategy(tier):
@@ -325,6 +347,10 @@ def _evaluate(case, ctx, b, prog, opts):
                               f"definitions_schema keys {sorted(ds)} vs inline {sorted(inline_defs)}; differing: {[k for k in ds if ds.get(k) != inline_defs.get(k)][:4]}")
         except Exception as e:
             ctx.violation({"kind": "definitions_schema_crash", "exc": type(e).__name__}, case, repr(e))
+    # 5. definitions_schema over several entries (with dynamic conversions): same definitions as the union of the
+    #    entries' inline $defs, closed under $ref, independent of the order of the entries
+    if case.get("defs_entries") and not case.get("clash"):
+        _multi_entry(case, ctx, b, prog, opts)
     rec = tdcase.recursive_classes(prog)
     shared = len(names) != len(set(names))
     if len(reach) >= 2 and (shared or rec):
@@ -333,6 +359,70 @@ def _evaluate(case, ctx, b, prog, opts):
                     "definitions": sorted(known), "refs": sorted(set(names))})
     ctx.h("version:" + version)
     ctx.h("all_refs:%s" % opts["all_refs"])
+
+
+def _ident(x):
+    return x
+
+
+def _multi_entry(case, ctx, b, prog, opts):
+    from apischema.conversions import Conversion
+
+    def cls_of(i):
+        return getattr(b.module, prog["classes"][i]["name"])
+
+    entries = []
+    for e in case["defs_entries"]:
+        k = cls_of(e["i"])
+        tp = {"root": b.root, "cls": k, "list": List[k], "opt": Optional[k], "map": Dict[str, k]}[e["what"]]
+        conv = None
+        if e["conv"]:
+            a, c = cls_of(e["conv"][0]), cls_of(e["conv"][1])
+            conv = Conversion(_ident, source=a, target=c) if opts["entry"] == "serialization" else Conversion(_ident, source=c, target=a)
+        entries.append((tp, conv))
+    fn = deserialization_schema if opts["entry"] == "deserialization" else serialization_schema
+    base = {"additional_properties": bool(opts.get("additional_properties")), "aliaser": build.ALIASERS[opts.get("aliaser", "id")]}
+    union = {}
+    try:
+        for tp, conv in entries:
+            inline = json.loads(json.dumps(fn(tp, conversion=conv, all_refs=True, **base))).get("$defs", {})
+            for name, d in inline.items():
+                if name in union and union[name] != d:
+                    return  # the entries do not agree on that name (conversion seen from two contexts): no single expected answer
+                union[name] = d
+    except Exception:
+        ctx.h("multi_entry:inline_raises")
+        return
+
+    def call(es, **kw):
+        arg = [tp if conv is None else (tp, conv) for tp, conv in es]
+        return json.loads(json.dumps(definitions_schema(**{opts["entry"]: arg}, **base, **kw)))
+
+    try:
+        got = call(entries, all_refs=True)
+    except Exception as e:
+        ctx.violation({"kind": "multi_entry_definitions_crash", "exc": type(e).__name__}, case, f"every entry has an inline schema but definitions_schema raises {e!r}")
+        return
+    has_conv = any(conv is not None for _, conv in entries)
+    ctx.h("multi_entry:conv" if has_conv else "multi_entry:plain")
+    if got != union:
+        ctx.violation({"kind": "multi_entry_definitions_differ", "conv": has_conv}, case,
+                      f"entries {case['defs_entries']}: definitions_schema(all_refs=True) has {sorted(got)}, the union of the inline $defs of the entries has {sorted(union)}; "
+                      f"differing bodies: {[k for k in got if k in union and got[k] != union[k]][:4]}")
+        return
+    dangling = sorted({r[len("#/$defs/"):] for d in got.values() for r in collect_refs(d)} - set(got))
+    if dangling:
+        ctx.violation({"kind": "multi_entry_dangling_ref", "conv": has_conv}, case, f"definitions {sorted(got)} reference {dangling}")
+        return
+    try:
+        kw = {} if opts.get("all_refs") is None else {"all_refs": opts["all_refs"]}
+        fwd, bwd = call(entries, **kw), call(entries[::-1], **kw)
+    except Exception as e:
+        ctx.violation({"kind": "multi_entry_definitions_crash", "exc": type(e).__name__}, case, repr(e))
+        return
+    if fwd != bwd:
+        ctx.violation({"kind": "multi_entry_order_dependent", "conv": has_conv}, case,
+                      f"entries {case['defs_entries']} (all_refs={opts.get('all_refs')}): {sorted(fwd)} in the given order, {sorted(bwd)} reversed")
 
 
 def occurrences(prog, t, direction):
